@@ -2,6 +2,7 @@ SPECIFICATION Spec
 CONSTANTS
   Addrs = {"a", "b", "c"}
   Dev = {"add_after_del"}
+  Cap = 50
   MaxOps = 8
 INVARIANTS NoBadDelta Settled
 CHECK_DEADLOCK FALSE
